@@ -36,7 +36,10 @@ RULE_ADDED = (
               ' '
               'Round 10: transactions of exactly chosen sizes (around 2^16 and 2^17; one of abo'
               'ut 2^24 bytes per run, over the TCP transport); hashes with zero bytes at an end'
-              '. ')
+              '. '
+              ' '
+              'Round 11: the request before may also have been an advanceBlockchain / updateAnc'
+              'estorBlock cut short at one of its exchanges. ')
 RULE = RULE + " " + RULE_ADDED.strip()
 ASSUMPTIONS = [
     "device model and fake HID transport are trusted (pv/simdev); they follow the framing only",
